@@ -1,3 +1,4 @@
 SPECIFICATION Spec
 POSTCONDITION AllConsumed
 CHECK_DEADLOCK FALSE
+VIEW ViewL
